@@ -1,6 +1,8 @@
 package rules
 
 import (
+	"strconv"
+	"regexp"
 	"fmt"
 	"go/constant"
 	"go/token"
@@ -79,6 +81,7 @@ func analyseWatch(c *Ctx, rule string) *watchShape {
 		return nil
 	}
 	// (event.Op & mask) == 0
+	var maskCands []*ssa.If
 	for _, iff := range ir.Ifs(fn) {
 		b, ok := iff.Cond.(*ssa.BinOp)
 		if !ok || (b.Op != token.EQL && b.Op != token.NEQ) {
@@ -92,12 +95,7 @@ func analyseWatch(c *Ctx, rule string) *watchShape {
 			continue
 		}
 		if strings.HasSuffix(c.exprDesc(and.X), ".Op") || strings.HasSuffix(c.exprDesc(and.Y), ".Op") {
-			s.maskIf = iff
-			succ := 1
-			if b.Op == token.NEQ {
-				succ = 0
-			}
-			s.maskPass = ir.Edge{From: iff.Block(), Succ: succ}
+			maskCands = append(maskCands, iff)
 		}
 	}
 	for _, call := range ir.Calls(fn) {
@@ -120,8 +118,30 @@ func analyseWatch(c *Ctx, rule string) *watchShape {
 			}
 		}
 	}
+	// the event mask is the test of the operation bits that decides whether the event is handled
+	// at all: it runs before the lock is taken (later tests of the bits, under the lock, classify
+	// an accepted event)
+	for _, iff := range maskCands {
+		underLock := false
+		if s.lock != nil {
+			hdr := s.header
+			underLock = ir.CanReach(fn, ir.PathQuery{From: s.lock.(ssa.Instruction), To: iff, Stop: func(in ssa.Instruction) bool { return in.Block() == hdr }})
+		}
+		if underLock {
+			continue
+		}
+		b := iff.Cond.(*ssa.BinOp)
+		s.maskIf = iff
+		succ := 1
+		if b.Op == token.NEQ {
+			succ = 0
+		}
+		s.maskPass = ir.Edge{From: iff.Block(), Succ: succ}
+	}
 	return s
 }
+
+var goneRe = regexp.MustCompile(`\.Op & (\d+)\) != 0$`)
 
 func runC11(c *Ctx) {
 	r := c.R
@@ -298,6 +318,7 @@ func runC11(c *Ctx) {
 			okRm := false
 			rv, _ := fsnotifyOp(c, "Remove")
 			badRm := false
+			var gone []string
 			for _, u := range s.updates {
 				if len(u.Common().Args) != 3 {
 					continue
@@ -319,10 +340,15 @@ func runC11(c *Ctx) {
 						at = li
 					}
 					var isRemove, tracked bool
+					rn, _ := fsnotifyOp(c, "Rename")
 					for _, g := range c.exprGuardsOf(fn, at) {
-						if strings.HasSuffix(g, fmt.Sprintf(".Op == %d", rv)) {
-							isRemove = true
+						// the directory is gone from its path when it was removed OR renamed away
+						if m := goneRe.FindStringSubmatch(g); m != nil {
+							if k, err := strconv.ParseInt(m[1], 10, 64); err == nil && k == rv|rn {
+								isRemove = true
+							}
 						}
+						gone = append(gone, g)
 						if strings.Contains(g, ".tracked[") && !strings.HasPrefix(g, "!") {
 							tracked = true
 						}
@@ -335,7 +361,7 @@ func runC11(c *Ctx) {
 				}
 			}
 			okRm = okRm && !badRm
-			r.Check("C11.3", "removed-dir-reported", okRm, c.U.Pos(fn.Pos()), "a Remove event for a tracked directory is handed to update as removed")
+			r.Check("C11.3", "removed-dir-reported", okRm, c.U.Pos(fn.Pos()), fmt.Sprintf("an event that says a tracked directory is gone from its path - Remove or Rename - hands it to update as removed, so that it is watched again when it reappears (conditions %v)", gone))
 		}
 	}
 
